@@ -500,7 +500,7 @@ Theorem C14_inplace_one_level : forall f env sk name full g ts0 gs2 s,
   (let '(s1, r) := consume env sk full no_inc gs2 s [] [] in
    match r with
    | SErr e => (s1, SErr e)
-   | SOk (im, ic) => (add_imports im s1, SOk (INode name im ic))
+   | SOk (im, ic) => (s1, SOk (INode name im ic))
    end).
 Proof.
   intros f env sk name full g ts0 gs2 s Hres Hset Hpg Hn Hl.
@@ -579,9 +579,10 @@ Proof.
   - intros n. apply make_macro_consts; assumption.
 Qed.
 
-(* ---------- similarity: everything but provenance and recorded imports ---------- *)
+(* ---------- similarity: everything but provenance (the recorded imports included, in their order) ---------- *)
 Definition sim (s s' : tstate) : Prop :=
-  t_reg s = t_reg s' /\ t_consts s = t_consts s' /\ t_store s = t_store s' /\ t_locked s = t_locked s'.
+  t_reg s = t_reg s' /\ t_consts s = t_consts s' /\ t_store s = t_store s' /\ t_locked s = t_locked s' /\
+  t_imports s = t_imports s'.
 (* errors: same class (locations may differ) *)
 Definition err_sim (e e' : serr) : Prop :=
   match e, e' with
@@ -598,8 +599,11 @@ Definition res_sim {A B : Type} (r : sres A) (r' : sres B) : Prop :=
 
 Lemma sim_refl : forall s, sim s s.
 Proof. intros s. repeat split; reflexivity. Qed.
-Lemma sim_add_imports_l : forall l s s', sim s s' -> sim (add_imports l s) s'.
-Proof. intros l s s' H. exact H. Qed.
+Lemma sim_add_imports : forall l s s', sim s s' -> sim (add_imports l s) (add_imports l s').
+Proof.
+  intros l s s' [H1 [H2 [H3 [H4 H5]]]]. unfold sim, add_imports. cbn [t_reg t_consts t_store t_locked t_imports].
+  rewrite H5. repeat split; assumption.
+Qed.
 Lemma err_sim_refl : forall e, err_sim e e.
 Proof. intros [f l|c ch]; reflexivity. Qed.
 Lemma err_sim_with_loc : forall l l' e e', err_sim e e' -> err_sim (with_loc_err l e) (with_loc_err l' e').
@@ -638,14 +642,14 @@ Lemma bind_sim : forall s s' sc sel arg v l l', sim s s' ->
   | _, _ => False
   end.
 Proof.
-  intros s s' sc sel arg v l l' [H1 [H2 [H3 H4]]]. unfold bind. rewrite H4, H1.
+  intros s s' sc sel arg v l l' [H1 [H2 [H3 [H4 H5]]]]. unfold bind. rewrite H4, H1.
   destruct (t_locked s') eqn:Hl'; [reflexivity|].
   destruct (sm_get_match (to_key sel) (t_reg s')) as [| |k [c|]]; try reflexivity.
   destruct (negb (cs_varkw c || str_in arg (cs_args c))); [reflexivity|].
   destruct (negb (match cs_allow c with [] => true | _ :: _ => false end) && negb (str_in arg (cs_allow c)));
     [reflexivity|].
   destruct (str_in arg (cs_deny c)); [reflexivity|].
-  unfold sim, set_store. cbn [t_reg t_consts t_store t_locked]. rewrite H3.
+  unfold sim, set_store. cbn [t_reg t_consts t_store t_locked t_imports]. rewrite H3.
   repeat split; congruence.
 Qed.
 
@@ -656,11 +660,11 @@ Lemma register_mod_sim : forall env m s s', sim s s' ->
   | _, _ => False
   end.
 Proof.
-  intros env m s s' [H1 [H2 [H3 H4]]].
+  intros env m s s' [H1 [H2 [H3 [H4 H5]]]].
   pose proof (register_mod_reg_lock env m s s' H1 H4) as A.
   pose proof (register_mod_reg_lock env m s' s (eq_sym H1) (eq_sym H4)) as B.
   destruct (register_mod env m s) as [a|e], (register_mod env m s') as [b|e']; try contradiction; [|exact A].
-  destruct A as [A1 [A2 [A3 [A4 _]]]]. destruct B as [_ [_ [B3 [B4 _]]]].
+  destruct A as [A1 [A2 [A3 [A4 [_ A6]]]]]. destruct B as [_ [_ [B3 [B4 [_ B6]]]]].
   unfold sim. repeat split; congruence.
 Qed.
 
@@ -705,7 +709,7 @@ Proof.
     + destruct (str_in m (e_modules env)).
       * pose proof (register_mod_sim env m s s' Hs) as B.
         destruct (register_mod env m s) as [a|e], (register_mod env m s') as [b|e']; try contradiction.
-        -- apply IH; assumption.
+        -- apply IH; [assumption|apply sim_add_imports; exact B].
         -- subst e'. rewrite !with_loc_SErr. cbn [fst snd res_sim]. split; [exact Hs|].
            apply err_sim_with_loc. apply err_sim_refl.
       * destruct (sk_truthy sk); [apply IH; assumption|].
@@ -789,8 +793,8 @@ Qed.
    include-free with groups gs2: parsing the main file is EXACTLY
      consume gs1 (main's name) ; consume gs2 (the included file's resolved name) ; consume gs3 (main's name)
    threaded on one state, i.e. the included statements take effect at the point of the include.  An error inside
-   the included file gets the include statement's location appended to its chain.  On success the included file's
-   imports are recorded (add_imports) when ITS parse ends, and the main file's own at the end. *)
+   the included file gets the include statement's location appended to its chain.  Every import is recorded in the
+   state when its statement takes effect (apply_stmts), the included file's own among them at their place. *)
 Theorem C14_inplace_sequential : forall fuel env sk fname o pending ts s im ic gs1 v line gs3 full g ts0 gs2,
   parse_groups fuel o pending ts = (gs1 ++ [SInclude v line] :: gs3, None) ->
   no_includes gs1 -> no_includes gs3 -> List.length gs1 + S (List.length gs3) < fuel ->
@@ -806,12 +810,7 @@ Theorem C14_inplace_sequential : forall fuel env sk fname o pending ts s im ic g
        match r2 with
        | SErr e => (s2, SErr (with_loc_err (fname, line) e))
        | SOk (im2, ic2) =>
-           let '(s3, r3) := consume env sk fname no_inc gs3 (add_imports im2 s2) im1
-                                    (ic1 ++ [INode (str_of_value v) im2 ic2]) in
-           match r3 with
-           | SErr e => (s3, SErr e)
-           | SOk (im3, ic3) => (add_imports im3 s3, SOk (im3, ic3))
-           end
+           consume env sk fname no_inc gs3 s2 im1 (ic1 ++ [INode (str_of_value v) im2 ic2])
        end
    end).
 Proof.
@@ -832,17 +831,17 @@ Proof.
   - cbn [apply_stmts].
     assert (Hl3 : List.length gs3 < f') by lia.
     rewrite (C16_stream_eq f' env sk fname o pending1 ts1 _ _ _ gs3 None Hpg3 Hn3 Hl3).
-    destruct (consume env sk fname no_inc gs3 (add_imports im2 s2) im1 (ic1 ++ [INode (str_of_value v) im2 ic2]))
-      as [s3 r3].
+    destruct (consume env sk fname no_inc gs3 s2 im1 (ic1 ++ [INode (str_of_value v) im2 ic2])) as [s3 r3].
     destruct r3 as [[im3 ic3]|e3]; reflexivity.
   - rewrite with_loc_SErr. reflexivity.
 Qed.
 
 (* ---------- the flattened form ---------- *)
 (* ... and therefore parsing the main file agrees with consuming the textually flattened group list
-   gs1 ++ gs2 ++ gs3 (all under the main file's name) on: registry, constants, THE STORE, the lock, and on
-   success/failure including the error class.  What is NOT equal: provenance file names (t_prov), the order in
-   which imports are recorded (t_imports), the returned imports / include tree, and error location chains. *)
+   gs1 ++ gs2 ++ gs3 (all under the main file's name) on: registry, constants, THE STORE, the lock, the recorded
+   imports in their order (each import is recorded when it takes effect), and on success/failure including the error
+   class.  What is NOT equal: provenance file names (t_prov), the returned imports / include tree, and error
+   location chains. *)
 Theorem C14_flatten_store : forall fuel env sk fname o pending ts s im ic gs1 v line gs3 full g ts0 gs2,
   parse_groups fuel o pending ts = (gs1 ++ [SInclude v line] :: gs3, None) ->
   no_includes gs1 -> no_includes gs3 -> List.length gs1 + S (List.length gs3) < fuel ->
@@ -867,15 +866,8 @@ Proof.
   cbn [fst snd] in A1, A2.
   destruct r2 as [[im2 ic2]|e2], r2' as [[im2' ic2']|e2']; try contradiction.
   2:{ cbn [fst snd res_sim]. split; [exact A1|apply err_sim_with_loc_l; exact A2]. }
-  pose proof (consume_sim env sk fname fname no_inc no_inc gs3 (add_imports im2 s2) s2'
-                im1 (ic1 ++ [INode (str_of_value v) im2 ic2]) im2' ic2' Hn3 (sim_add_imports_l im2 s2 s2' A1)) as [B1 B2].
-  destruct (consume env sk fname no_inc gs3 (add_imports im2 s2) im1 (ic1 ++ [INode (str_of_value v) im2 ic2]))
-    as [s3 r3].
-  destruct (consume env sk fname no_inc gs3 s2' im2' ic2') as [s3' r3'].
-  cbn [fst snd] in B1, B2.
-  destruct r3 as [[im3 ic3]|e3], r3' as [[im3' ic3']|e3']; try contradiction.
-  - cbn [fst snd res_sim]. split; [apply sim_add_imports_l; exact B1|exact I].
-  - cbn [fst snd res_sim]. split; [exact B1|exact B2].
+  exact (consume_sim env sk fname fname no_inc no_inc gs3 s2 s2'
+           im1 (ic1 ++ [INode (str_of_value v) im2 ic2]) im2' ic2' Hn3 A1).
 Qed.
 
 (* readable corollary: on success of the flattened run the real parse succeeds with the SAME store *)
@@ -896,7 +888,7 @@ Proof.
   rewrite HF in A, B. cbn [fst snd] in A, B.
   destruct (parse_tokens fuel env sk fname o pending ts s im ic) as [sR rR]. cbn [fst snd] in A, B.
   destruct rR as [[imR icR]|eR]; [|contradiction].
-  exists sR, imR, icR. destruct A as [A1 [A2 [A3 A4]]]. auto.
+  exists sR, imR, icR. destruct A as [A1 [A2 [A3 [A4 _]]]]. auto.
 Qed.
 
 (* ---------- a concrete instance (non-vacuity; later binding overrides across the file boundary) ---------- *)
